@@ -278,7 +278,15 @@ def coq_eval_files(files: list[Path], timeout: int = 600) -> list[tuple[int, str
                            cwd=f.parent, capture_output=True, text=True)
         return (p.returncode, p.stdout, p.stderr)
     with ThreadPoolExecutor(max_workers=NCPU) as ex:
-        return list(ex.map(one, files))
+        results = list(ex.map(one, files))
+    # a shard that was killed (out of memory on a loaded machine: rc -9 / 137) or ran into the time limit (124) says nothing
+    # about the model: evaluate it again on its own, with a longer limit, before anything is concluded from it
+    for i, (rc, _, _) in enumerate(results):
+        if rc in (-9, 137, 124, -15):
+            p = subprocess.run(['timeout', str(timeout * 4), 'coqc', '-Q', str(COQ_DIR / 'theories'), 'BA', str(files[i])],
+                               cwd=files[i].parent, capture_output=True, text=True)
+            results[i] = (p.returncode, p.stdout, p.stderr)
+    return results
 
 
 def parse_eval_list(stdout: str) -> list[list[int]]:
